@@ -397,6 +397,13 @@ def same_input_merge_rule(cx, rep, rid):
         for lp in twalk(fn):
             if lp["type"] in ("ForOfStatement", "ForInStatement", "ForStatement", "WhileStatement") and any(any(y is c_ for y in twalk(lp)) for c_ in calls):
                 in_loop = True
+        # (the loop may be a callback handed to an array method of the class's own list: `this.schemas.map((it) =>
+        # it.parseAfterValidation(ctx, input))`, benign b37)
+        for cb in twalk(fn):
+            if cb["type"] == "CallExpression" and re.search(r"\.(map|forEach|flatMap|reduce|filter)$", ts_s(cb["callee"]) or ""):
+                for a_ in cb["arguments"]:
+                    if unparen(a_["expression"]).get("type") in ("ArrowFunctionExpression", "FunctionExpression") and any(any(y is c_ for y in twalk(a_["expression"])) for c_ in calls):
+                        in_loop = True
         if not in_loop and len(calls) < 2:
             continue        # one child, one projection: nothing to combine
         n += 1
